@@ -280,6 +280,7 @@ class Batch(object):
         self.samples = []
         self.violations = []      # dicts: run, hashclass, invariant, ...
         self.harness_errors = []
+        self.timeouts = []        # programs whose child never came back (to be confirmed by the caller)
         self.run_digests = {}
         self.completed = 0
         self.cut_short = False
@@ -334,6 +335,10 @@ class Batch(object):
                         active -= 1
                         if time.time() - t0 > self.wall_cap:
                             self.cut_short = True
+                        elif len(self.harness_errors) >= 12:
+                            # something is systematically wrong (e.g. the code under test hangs):
+                            # stop handing out work, the exit code will be 2
+                            self.cut_short = True
                         elif self._dispatch(w, pending):
                             active += 1
         finally:
@@ -373,6 +378,7 @@ class Batch(object):
                 self.samples.append(s)
         self.violations.extend(rep['violations'])
         self.harness_errors.extend(rep['harness_errors'])
+        self.timeouts.extend(rep.get('timeouts', []))
         self.completed += rep['completed']
         if self.keep_digests:
             for r, d in rep['digests']:
@@ -393,9 +399,18 @@ class ProgramRunner(object):
         self.worker = Worker(hashclass)
         self.executions = 0
 
-    def run(self, program):
+    def run(self, program, timeout_is_violation=False):
         self.executions += 1
-        rep = self.worker.request({'cmd': 'program', 'prop': self.prop, 'program': program})
+        try:
+            rep = self.worker.request({'cmd': 'program', 'prop': self.prop, 'program': program})
+        except HarnessError as e:
+            if timeout_is_violation and 'timeout in pristine child' in str(e):
+                return {'violation': {'invariant': 'operation-terminates', 'op_index': None, 'op': None,
+                                      'observed': 'the program did not finish within its wall-time guard '
+                                                  '(20-60 s; it normally takes milliseconds)',
+                                      'expected': 'every operation returns'},
+                        'digest': 'timeout', 'trace': None}
+            raise
         return rep          # {'violation':..., 'digest':..., 'stats':..., 'trace':...}
 
     def close(self):
